@@ -76,6 +76,10 @@ LEAVES = [
     L("enum_one", {"type": "string", "enum": ["only"]}, enf=True, strish=True),
     L("enum_collide", {"type": "string", "enum": ["Foo_Bar", "FooBar", "Content-Type", "ContentType"]}, enf=True, strish=True),   # identifiers collide: fallback naming
     L("enum_collide_hard", {"type": "string", "enum": ["a_b", "a-b"]}, enf=True, strish=True),   # identifiers still collide after the fallback pass
+    # members with the characters that Rust's Debug / string-literal syntax escapes (quote, backslash, control characters, non-printable
+    # and combining scalar values) and printf / format-string metacharacters
+    L("enum_escapes", {"type": "string", "enum": ["say \"hi\"", "back\\slash", "tab\there", "nl\nx", "nul\u0000x", "bell\u0007", "e\u0301", "\u00a0x", "'q'", "100%", "$d", "#[k]"]},
+      enf=True, strish=True),
     L("enum_brace", {"type": "string", "enum": ["{x}", "a}", "{{", "%s {}"]}, enf=True, strish=True),
     L("enum_excl", {"type": "string", "enum": ["a", "bbb"], "maxLength": 2}, enf=True, strish=True),
     L("enum_mb", {"type": "string", "enum": ["éé", "abc"], "maxLength": 2}, enf=True, strish=True),
@@ -607,6 +611,10 @@ REFINE_BASES = {
                                                 # extensions adding an UNCONSTRAINED optional member (schema {}, true, or annotations only)
                                                 {"properties": {"note": {}}}, {"properties": {"note": True}}, {"properties": {"note": {"description": "free-form"}}},
                                                 {"properties": {"note": {}, "extra": BOOL}}, {"required": ["note"]}]),
+    # a base with a SCHEMA-valued additionalProperties (a struct with a flattened typed map): whatever the other branch adds, the typed
+    # extras must survive the merge
+    "obj_apT": (obj({"s": STR, "n": INT}, ["s"], additionalProperties=STR), [{"required": ["n"]}, {"properties": {"flag": BOOL}}, {"properties": {"s": {"maxLength": 2}}},
+                                                                              {"properties": {"n": {"minimum": 0}}, "required": ["n"]}]),
 }
 
 
@@ -623,7 +631,7 @@ def refine_family(tier):
                     ckeys = "+".join(sorted(con))
                     enf = ((bname in ("str", "str_max4", "enum_abc", "enum_int", "enum_num") and "format" not in con and "minimum" not in con) or (bname == "int" and "enum" in con)
                            or (bname == "vec_int" and ckeys == "maxItems+minItems")
-                           or (bname == "obj" and ckeys in ("required", "additionalProperties")))
+                           or (bname in ("obj", "obj_apT") and ckeys in ("required", "additionalProperties")))
                     sh = L("refine[%s:%s%d:%s%s]" % (bname, ckeys, ci, via, ":typed" if typed else ""), {"allOf": [first, c]},
                            ff="uniqueItems" not in con and "multipleOf" not in con and "not" not in con and "format" not in con, enf=enf, fam=True,
                            strish=bname in ("str", "str_max4", "enum_abc"), defs={"XBase": copy.deepcopy(base)} if via == "ref" else None)
